@@ -144,10 +144,10 @@ template <typename KeyT, typename ValueT>
 std::istream& deserialize(std::istream& is, std::map< KeyT, ValueT >& rhs)
 {
 
-    size_t size;
+    size_t size = 0;
     is >> size;
     rhs.clear();
-    for (size_t i=0; i<size; i++)
+    for (size_t i=0; i<size && is; i++)
     {
         KeyT key;
         ValueT value;
@@ -171,10 +171,10 @@ std::ostream& serialize(std::ostream& _ostr, const std::vector< ValueT >& _rhs)
 template <typename ValueT>
 std::istream& deserialize(std::istream& _istr, std::vector< ValueT >& _rhs)
 {
-    size_t size;
+    size_t size = 0;
     _istr >> size;
     _rhs.resize(size);
-    for (size_t i=0; i<size; i++)
+    for (size_t i=0; i<size && _istr; i++)
         deserialize(_istr,_rhs[i]);
 
     return _istr;
